@@ -229,5 +229,42 @@ def timer_race(inp):
     return {'violates': bool(bad), 'detail': bad}
 
 
+def enter_failure(inp):
+    """a ProgressBar whose terminal output fails while the reporter is ENTERED (closed stream / a step count that cannot be
+    formatted): the with statement never calls __exit__, so no timer thread may be left alive"""
+    import threading
+    from oqupy import util
+
+    class Broken(io.StringIO):
+        def __init__(self, fail_from):
+            super().__init__()
+            self.n, self.fail_from = 0, fail_from
+
+        def write(self, s):
+            self.n += 1
+            if self.n >= self.fail_from:
+                raise ValueError('I/O operation on closed file')
+            return super().write(s)
+    leaks = []
+    for what in ('stream fails at first write', 'stream fails at second write', 'max_value is a float'):
+        before = set(_alive_timers())
+        bar = util.ProgressBar(10 if 'float' not in what else 2.0, 'title')
+        bar._file = Broken(1 if 'first' in what else 2) if 'stream' in what else io.StringIO()
+        raised = False
+        try:
+            with bar as b:
+                pass
+        except Exception:       # noqa
+            raised = True
+        time.sleep(1.3)         # a re-arming timer would fire and re-arm in this time
+        left = [t for t in _alive_timers() if t not in before]
+        if left:
+            leaks.append({'case': what, 'alive_timer_threads_after_the_with_statement_ended': len(left), 'with statement raised': raised})
+            for t in left:
+                t.cancel()
+            bar._closed = True
+    return {'violates': bool(leaks), 'detail': leaks}
+
+
 # thorough tier (bounded native sweeps): (function, inputs, obligation of the open finding it reproduces or None)
-THOROUGH = [('timer_race', {}, None)]
+THOROUGH = [('timer_race', {}, None), ('enter_failure', {}, None)]
